@@ -525,13 +525,15 @@ def evaluate_bc(ctx, binpath, cases, stream):
         # the Spec as oracle on the implementation's output
         got = set()
         unsound = []
-        for a in i_answers:
+        distinct = list({json.dumps(a): a for a in i_answers}.values())   # a changed engine may return huge multisets
+        for a in distinct:
             for g in ground_instances(a, consts):
-                got.add(g)
-                if g not in lm and g not in unsound:
-                    unsound.append(g)
+                if g not in got:
+                    got.add(g)
+                    if g not in lm and len(unsound) < 50:
+                        unsound.append(g)
         # an answer that still has variables stands for all its instances; completeness wants the fact itself
-        ground_got = set(tuple(t[1] for t in a) for a in i_answers if not atom_vars(a))
+        ground_got = set(tuple(t[1] for t in a) for a in distinct if not atom_vars(a))
         missing = [f for f in required if f not in ground_got and f not in got]
         if kn:
             st["in_known_filters"] += 1
